@@ -607,6 +607,39 @@ pub fn run(ctx: &mut Ctx) {
         ctx.count("special-random.cases");
     });
 
+    // ------------------------------------------------ Diffie-Hellman parameters shaped like the published groups (RFC 7919 ffdhe,
+    // RFC 3526 MODP: fixed leading and trailing 64-bit words, everything between derived from a constant) at every
+    // size a peer could announce: multiples of 8 bytes up to 1 KiB, multiples of 128 bytes up to the u16 limit.
+    // Parsed by every entry point and formatted (formatting code that recognises well-known values sees them here)
+    ctx.floor("well-known-dh.cases", 1200);
+    ctx.sweep("well-known-dh-groups", 640, |ctx, idx| {
+        let len = if idx < 129 { 24 + 8 * idx as usize } else { 128 * (idx as usize - 128) };
+        if len > 65535 - 8 {
+            return;
+        }
+        let mut rng = Rng::new(idx ^ 0xD4_6E0);
+        let heads: [[u8; 16]; 2] = [
+            [0xff, 0xff, 0xff, 0xff, 0xff, 0xff, 0xff, 0xff, 0xad, 0xf8, 0x54, 0x58, 0xa2, 0xbb, 0x4a, 0x9a],
+            [0xff, 0xff, 0xff, 0xff, 0xff, 0xff, 0xff, 0xff, 0xc9, 0x0f, 0xda, 0xa2, 0x21, 0x68, 0xc2, 0x34],
+        ];
+        let mut s = String::new();
+        for h in heads.iter() {
+            let mut p = rng.bytes(len);
+            p[..16].copy_from_slice(h);
+            p[len - 8..].copy_from_slice(&[0xff; 8]);
+            let mut w = W::new();
+            w.vec16("dh_p", &p);
+            w.vec16("dh_g", &[2]);
+            w.vec16("dh_Ys", &rng.bytes(len.min(512)));
+            let input = w.b;
+            ctx.count("well-known-dh.cases");
+            for e in &reg {
+                let aux = Aux { len: input.len(), flag: idx % 2 == 0, ty: 0x16, hlen: input.len().min(65535) as u16 };
+                call(ctx, e, "well-known-dh-group", &input, &aux, &mut s);
+            }
+        }
+    });
+
     // ------------------------------------------------ every length 0..20 of three patterns, all entry points, all aux lens
     ctx.sweep("patterns", 21 * 3, |ctx, idx| {
         let n = (idx / 3) as usize;
